@@ -134,7 +134,7 @@ def run_gb(c, it, a, k):
         # the grid tasks really write with: normalize_chunks(write_proxy.chunks, shape=target.shape)
         wg = normalize_chunks_contract(it, csz, ta.shape)
         for i, (g, w) in enumerate(zip(gj, wg)):
-            _oblige(it, f"{tag}.meta:declared-grid-is-the-grid-tasks-write[out{j},axis{i}]", as_grid(it, g).grid_eq(w))
+            _grid_equal_obligation(it, f"{tag}.meta:declared-grid-is-the-grid-tasks-write[out{j},axis{i}]", as_grid(it, g), w)
         if len(ta.shape) != len(shapes[j]):
             _oblige(it, f"{tag}.meta:target-rank[out{j}]", False)
         else:
@@ -220,6 +220,28 @@ def run_gb(c, it, a, k):
         fusable_with_predecessors=fwp, fusable_with_successors=fws, write_chunks=chunksizes[-1]))
     rec.op = op
     return op
+
+
+def _grid_equal_obligation(it, name, g1, g2):
+    """g1 == g2 as sequences: equal length and equal block size at a generic index."""
+    from .symseq import ConcatGrid
+
+    if not isinstance(g1, ConcatGrid) and not isinstance(g2, ConcatGrid):
+        try:
+            return _oblige(it, name, g1.grid_eq(g2))
+        except Unsupported:
+            pass
+    ctx = it.ctx
+    l1, l2 = g1.length(), g2.length()
+    ob = _oblige(it, name + ":length", l1 == l2)
+    ctx.push()
+    try:
+        k = ctx.fresh_int("gi", lo=0)
+        ctx.assume(k < l1)
+        if ctx.feasible():
+            _oblige(it, name, g1.get(it, k) == g2.get(it, k))
+    finally:
+        ctx.pop()
 
 
 def _projected_mem(it, reserved_mem, arrays, extra, dtypes, chunksizes, bc):
